@@ -55,6 +55,8 @@ COERCE = {(('O', 'ref'), 'cell'): 'cell_of_oref %s', ('ref', 'cell'): 'CR %s', (
           ('cell', 'dcell'): 'dcell_of_cell %s', ('json', 'cell'): 'cell_of_json %s', ('none', 'cell'): 'cnone',
           ('json', ('L', ('P', 'str', 'json'))): 'json_items %s'}
 FIELDS = ('L', ('P', 'str', 'json'))
+COERCE[(('L', 'ref'), ('L', 'cell'))] = 'map CR %s'
+DEFAULTS = {'ref': '(([], O) : ref)', 'str': '([] : str)', 'cell': 'cnone'}
 
 
 def coerce(code, ty, want, node=None):
@@ -186,6 +188,13 @@ class Tr(object):
       return '(' + ', '.join(c for c, _ in parts) + ')', ('T', tuple(t for _, t in parts))
     if isinstance(n, ast.Call):
       return self.call(n)
+    if isinstance(n, ast.Subscript) and isinstance(n.slice, ast.Constant) and isinstance(n.slice.value, int) and \
+       not isinstance(n.slice.value, bool) and 0 <= n.slice.value < 100:
+      a, ta = self.expr(n.value)                              # xs[i]; IndexError is not modelled: default value
+      t = self.elem_ty(ta, n)
+      if t not in DEFAULTS:
+        fail(n, 'indexing a list of %r' % (t,))
+      return '(nth %d %s %s)' % (n.slice.value, a, DEFAULTS[t]), t
     fail(n, 'unsupported expression')
 
   def compare(self, n):
